@@ -160,8 +160,9 @@ def c12_3(ctx: Ctx):
     ctx.check(ok, fi, sz[0].node if sz else fi.node, "expression and its size (bit_size // 8) are stored at pos", "expression/size stores changed")
     if se:
         c = se[0].node.value
-        ok = isinstance(c, ast.Call) and src(c.func) == "self._fixup_to_symbolic_operand" and [src(a) for a in c.args] == ["fixup", "data", "inst.desc.is_call or inst.desc.is_branch", "state.loc"]
-        ctx.check(ok, fi, c, "_fixup_to_symbolic_operand(fixup, data, is_call or is_branch, loc)", "arguments changed")
+        # (which transfers count as "branch operand" is C12.12's business)
+        ok = isinstance(c, ast.Call) and src(c.func) == "self._fixup_to_symbolic_operand" and len(c.args) == 4 and [src(a) for a in (c.args[0], c.args[1], c.args[3])] == ["fixup", "data", "state.loc"]
+        ctx.check(ok, fi, c, "_fixup_to_symbolic_operand(fixup, data, <is branch operand>, loc)", "arguments changed")
     fv = repo.func(ST + "emit_value_impl")
     lv = linear(fv.node)
     keys = [src(g.node.targets[0].slice) for g in lv.stmts if isinstance(g.node, ast.Assign) and isinstance(g.node.targets[0], ast.Subscript) and "symbolic_expression" in src(g.node.targets[0].value)]
